@@ -37,6 +37,12 @@ ASSUMPTIONS = [
     "length-1 axes split into several blocks by an explicit zero-size chunk are not generated (C19's listed finding "
     "broadcast-multiblock-len1-axis: chunk unification treats them as broadcast axes)",
     "vindex with slices follows the documented order (dimensions spanned by the point arrays first, then the slices)",
+    "an integer and an array indexer separated by a slice/None/Ellipsis (NumPy moves the indexed dimension first) IS generated and "
+    "compared with NumPy: docs/source/array-slicing.rst does not document a divergence; dask's in-place layout is the listed finding "
+    "advanced-dim-not-moved-first, recognised only when the result equals NumPy's up to exactly that transposition",
+    "zero-length axes and explicit zero-size chunks are separate low-probability strata (<= ~10 % of the random cases each; not in the "
+    "exhaustive tiers except the length-0 array of enum-slice1d); length-1 axes with zero-size chunks are not explored",
+    "every compute, including implicit ones inside dask (a dask scalar as slice bound), runs on the synchronous scheduler",
 ]
 TECHNIQUE = "differential testing against NumPy: exhaustive slices/takes x all chunkings, Hypothesis-generated multi-axis indices"
 
